@@ -1,5 +1,6 @@
 import KitModel.TTLCache
 import KitProofs.Lemmas.TTLCache
+import KitProofs.Lemmas.TTLCacheConc
 /-!
 # C15 — ttlcache: Get never returns an expired, deleted or superseded value
 
@@ -223,5 +224,155 @@ theorem no_overflow_of_maxTTL (maxTTL ttl : Int) (h0 : 0 < maxTTL) (hm : maxTTL 
     NoOverflow maxTTL ttl := by
   unfold NoOverflow effTTL second
   split <;> omega
+
+/-! ## concurrent (every interleaving, any number of callers and cleaners)
+
+`s.ref` is the reference map the callers' operations define: `Set` puts, `Delete` removes, and a
+`Reset` that deletes the very entry its visit saw removes it (`cstep`, ghost updates only).
+`s.raced` records `(k, stamp)` of entries deleted by a cleaner whose visit of `k` had seen an
+*older* entry (different stamp): the documented cleanup/refresh race. -/
+
+/-- **hit_is_fresh.** In every reachable state, a `Get` hit returns the value of the reference
+entry of that key — the most recently `Set` value, not deleted, not reset — and that entry is
+unexpired on the cache's clock. No interleaving of cleaners can make `Get` return anything else. -/
+theorem hit_is_fresh {maxTTL t0 period : Int} {s : CState} (hr : Reach maxTTL t0 period s)
+    (k : Key) (v : Val) (hget : getOfC s k = some v) :
+    ∃ e st, mget s.ref k = some (e, st) ∧ e.val = v ∧ s.now < e.exp := by
+  have hI := cinv_reach hr
+  unfold getOfC at hget
+  cases hg : mget s.m k with
+  | none => simp [hg] at hget
+  | some x =>
+    obtain ⟨e, st⟩ := x
+    simp only [hg] at hget
+    split at hget
+    · rename_i hlt
+      simp only [Option.some.injEq] at hget
+      exact ⟨e, st, hI.sub k _ hg, hget, hlt⟩
+    · cases hget
+
+/-- **miss_only_by_documented_race.** If the reference holds a live entry for `k` (stamp `st`) and
+`Get k` misses, then `(k, st)` is in `raced`: a cleaner deleted it although its visit of `k` had
+seen a different (older) entry. -/
+theorem miss_only_by_documented_race {maxTTL t0 period : Int} {s : CState}
+    (hr : Reach maxTTL t0 period s) (k : Key) (e : Entry) (st : Nat)
+    (href : mget s.ref k = some (e, st)) (hlive : s.now < e.exp) (hmiss : getOfC s k = none) :
+    (k, st) ∈ s.raced := by
+  have hI := cinv_reach hr
+  unfold getOfC at hmiss
+  cases hg : mget s.m k with
+  | none =>
+    rcases hI.explained k e st href hg with h1 | h1
+    · omega
+    · exact h1
+  | some x =>
+    have := hI.sub k x hg
+    rw [href] at this
+    cases this
+    simp only [hg] at hmiss
+    split at hmiss
+    · cases hmiss
+    · contradiction
+
+/-- Contrapositive, the form the harness monitors: a live reference entry that was not hit by the
+documented race is returned by `Get` — in particular a key nobody touches while cleaners run
+(nothing can put it into `raced`, see `raced_only_by_delete_after_refresh`) never disappears. -/
+theorem live_entry_hit_unless_raced {maxTTL t0 period : Int} {s : CState}
+    (hr : Reach maxTTL t0 period s) (k : Key) (e : Entry) (st : Nat)
+    (href : mget s.ref k = some (e, st)) (hlive : s.now < e.exp) (hnr : (k, st) ∉ s.raced) :
+    getOfC s k = some e.val := by
+  cases hg : getOfC s k with
+  | none => exact absurd (miss_only_by_documented_race hr k e st href hlive hg) hnr
+  | some v =>
+    obtain ⟨e', st', h1, h2, _⟩ := hit_is_fresh hr k v hg
+    rw [href] at h1
+    cases h1
+    rw [h2]
+
+/-- How an entry gets into `raced`: only by a cleaner's delete step `cDelOne id k st0` where the
+cleaner is in its delete phase, had collected `(k, st0)` at its visit, and the stored entry now
+carries a different stamp `st ≠ st0` — i.e. a `Set k` happened between that visit and this delete
+(stamps are assigned by `Set` only). No other step of any caller or cleaner adds to `raced`. -/
+theorem raced_only_by_delete_after_refresh {s s' : CState} {l : Label} (hs : cstep s l = some s')
+    (p : Key × Nat) (hp : p ∈ s'.raced) :
+    p ∈ s.raced ∨ ∃ id st0, l = .cDelOne id p.1 st0 ∧ st0 ≠ p.2 ∧
+      ∃ c ∈ s.cls, c.id = id ∧ c.phase = .deleting ∧ (p.1, st0) ∈ c.keys ∧
+        ∃ e, mget s.m p.1 = some (e, p.2) := by
+  cases l
+  case cDelOne id k st =>
+    simp only [cstep] at hs
+    split at hs
+    · rename_i c0 hfind
+      obtain ⟨hc0, hid0⟩ := findCl_some hfind
+      split at hs
+      · rename_i hcond
+        split at hs
+        · cases hs; exact Or.inl hp
+        · rename_i e0 st' hg
+          split at hs
+          · cases hs; exact Or.inl hp
+          · rename_i hne
+            cases hs
+            rcases List.mem_cons.1 hp with rfl | hp
+            · exact Or.inr ⟨id, st, rfl, fun h => hne h.symm, c0, hc0, hid0, hcond.1, hcond.2, e0, hg⟩
+            · exact Or.inl hp
+      · cases hs
+    · cases hs
+  all_goals
+    simp only [cstep] at hs
+    repeat' split at hs
+    all_goals first
+      | (cases hs; exact Or.inl hp)
+      | cases hs
+
+/-- **stop_waits_cleaner.** `Stop` can return only when the periodic goroutine has exited: it is
+not inside a Cleanup (no cleaner with id 0 in flight) and its deferred `ticker.Stop()` has run. -/
+theorem stop_waits_cleaner {maxTTL t0 period : Int} {s s' : CState} (hr : Reach maxTTL t0 period s)
+    (hs : cstep s .stopReturn = some s') :
+    s.bg = .exited ∧ s.tickerStopped = true ∧ ∀ c ∈ s.cls, c.id ≠ 0 := by
+  have hI := cinv_reach hr
+  simp only [cstep] at hs
+  split at hs
+  · rename_i hcond
+    obtain ⟨hb, ht⟩ := hI.closed hcond.2
+    refine ⟨hb, ht, fun c hc h0 => ?_⟩
+    have := hI.bgCl c hc h0
+    rw [hb] at this; cases this
+  · cases hs
+
+/-- Non-vacuity (and the documented race as a run of the LTS): `Set a` (ttl 1 s), 2 s pass, a
+cleaner snapshots `a` as expired, `a` is refreshed (ttl 50 s), a `Get` hits the new value, the
+cleaner deletes: now the reference entry is live, `Get` misses, and `raced` names exactly it. The
+untouched key `b` is still served. -/
+example :
+    (crun (CState.init 0 0 1000000000000)
+      [.set "a" 1 1, .set "b" 2 50, .advance 2000000000, .cBegin 1 false, .cNow 1, .cVisit 1 "a",
+       .cVisit 1 "b", .cSeal 1, .set "a" 3 50, .get "a" (some 3), .cDelOne 1 "a" 0, .cEnd 1,
+       .get "a" none, .get "b" (some 2)]).map
+      (fun s => (getOfC s "a", s.raced, (mget s.ref "a").map (fun x => (x.1.val, x.2)), getOfC s "b"))
+    = some (none, [("a", 2)], some (3, 2), some 2) := by decide
+
+/-- Non-vacuity of `stop_waits_cleaner`: `Stop` while the periodic cleaner is inside Cleanup cannot
+return (`stopReturn` disabled) until the cleaner has finished and exited. -/
+example :
+    (crun (CState.init 0 0 1000000000) [.advance 1000000000, .bgTake, .cNow 0, .stopCall]).map
+      (fun s => (cstep s .stopReturn).isSome) = some false ∧
+    (crun (CState.init 0 0 1000000000)
+      [.advance 1000000000, .bgTake, .cNow 0, .stopCall, .cSeal 0, .cEnd 0, .bgExit, .stopReturn]).isSome
+      = true := by decide
+
+/-- Trace-level reading of `hit_is_fresh` (not proved in this round): for every run `ls` from the
+initial state, a hit equals what the backwards scan `lastLive` of the callers' Set/Delete/Advance
+labels yields. Proved so far: the state-level theorem above, whose `ref` is updated by exactly
+those labels. -/
+def hit_is_fresh_trace_statement : Prop :=
+  ∀ (maxTTL t0 period : Int) (ls : List Label) (s : CState) (k : Key) (v : Val),
+    crun (CState.init maxTTL t0 period) ls = some s → getOfC s k = some v →
+    (∀ k' v' ttl, Label.set k' v' ttl ∈ ls → NoOverflow maxTTL ttl) →
+    ∃ ttl el, lastLive k ((ls.filterMap (fun l => match l with
+        | .set k v ttl => some (Op.set k v ttl)
+        | .delete k => some (Op.delete k)
+        | .advance d => some (Op.advance d)
+        | _ => none)).reverse) 0 = some (v, ttl, el) ∧ (el : Int) < effTTL maxTTL ttl * second
 
 end Kit.TTLCache
